@@ -90,6 +90,10 @@ func FlushFromOverrideDefaultNI(c *fluent.GRIBIClient, wantACK fluent.Programmin
 // default NI using the Get RPC.
 func FlushFromNonMasterDefaultNI(c *fluent.GRIBIClient, wantACK fluent.ProgrammingResult, t testing.TB, _ ...TestOpt) {
 	defer flushServer(c, t)
+	// Ensure that there is a valid (non-zero) election ID that is lower than the one
+	// that the entries are programmed with, even when this is the first test that
+	// is run with the default starting election ID.
+	electionID.Inc()
 	addFlushEntriesToNI(c, defaultNetworkInstanceName, wantACK, t)
 
 	// addFlushEntriesToNI increments the election ID so to check with the current value,
